@@ -1,6 +1,6 @@
 (** Property C07: invalid policies are rejected, never mis-compiled; valid ones are accepted. *)
 From Coq Require Import String List NArith Bool.
-From Seccomp Require Import Words Result Machine Assembler Policy Spec Tables Text TextProofs CompileProofs RejectProofs PolicyTop ValidationTemplates.
+From Seccomp Require Import Words Result Machine Assembler Policy Spec Tables Text TextProofs CompileProofs RejectProofs PolicyTop ValidationTemplates Codegen.
 From Gen Require Import GenTables GenArches GenNames GenCodegen.
 Import ListNotations.
 Open Scope N_scope.
@@ -107,6 +107,16 @@ Proof.
   apply member_exact_is_op_valid. vm_compute. reflexivity.
 Qed.
 Print Assumptions C07_source_conditions_check_is_the_model.
+
+(** ... and of the policy-level check: Policy.Validate, regenerated as the conditions (in source order) under which it
+    returns an error, refuses exactly an unnamed default action and a policy without groups, in that order *)
+Theorem C07_source_policy_validation_is_the_model : forall k pol,
+  policy_validate_shape = true /\
+  validate_by_template k policy_validate_template pol =
+  Some (if negb (is_named k (p_default pol)) then Some EDefaultAction
+        else match p_groups pol with [] => Some ENoSyscalls | _ => None end).
+Proof. intros k pol. split; [reflexivity|]. change policy_validate_template with expected_policy_validate. apply expected_validate_is_model. Qed.
+Print Assumptions C07_source_policy_validation_is_the_model.
 
 (** non-vacuity: one rejected policy per defect kind with the expected class, and an accepted one *)
 Theorem C07_nonvacuous :
